@@ -4,7 +4,7 @@ from harness.props import c01 as B
 
 ID = "C02"
 ENTRY = "SearchArray.docfreq / doclengths / avg_doc_length / corpus_size"
-LEVEL = "other"
+LEVEL = "proof"
 RULE = ("corpora with leading/trailing/interleaved empty documents, all-empty batches, None/NaN entries, batch sizes "
         "that put empties on both sides of every boundary, workers 1..8; docfreq of every vocabulary term and absent "
         "terms, doclengths, avg_doc_length (float32 bit pattern vs correctly rounded total/n), corpus_size. "
